@@ -10,3 +10,5 @@ def check(rep, tier):
     discipline.run_frame(rep, tier)
     from contracts import programs_exact
     programs_exact.run_history(rep)
+    from contracts import core_backward
+    core_backward.run_proof(rep, tier, which=('backward_pass',))
